@@ -25,6 +25,7 @@ import RotoV.Generated.C07Arms
 import RotoV.Lemmas.TcInferUnify
 import RotoV.Lemmas.TcInferSoundMain
 import RotoV.Lemmas.TcInferObls
+import RotoV.Lemmas.TcInferProg
 
 namespace RotoV.C07
 open RotoV.Typing RotoV.TcRules
@@ -468,7 +469,8 @@ example : C07Arms.exprArms.length = 20 := by decide
         the fragment the obligations stay empty — `inferFn_store`);
     (b) that a solution of the final store always exists (it does whenever the
         store is acyclic, which the occurs check maintains — not proved here);
-    (c) constant items and whole programs (`TcInfer.checkProgM`).
+    (c) nothing else at the level of items: constant items and whole programs
+        are covered (`infer_program_sound_partial`).
   The model itself is compared with the real checker on every run (all
   constructs, accept / reject and class of the report). -/
 
@@ -497,6 +499,45 @@ theorem infer_rejects_what_rules_reject_partial (env : Env) (henv : EnvPlain env
     (u : Unit) (st' : St) (h : inferFn env params rt body ⟨[], []⟩ = .ok u st') :
     ¬ ∃ σ : Val, GVal σ ∧ Sat σ st'.store :=
   fun hsol => hrej (infer_sound_partial env henv p n params rt body hpp hpr hcb u st' h hsol)
+
+open RotoV.TcInfer in
+/-- **T3 for whole programs** (`TcInfer.checkProgM`: unique item names, type
+    declarations and type cycles, all signatures, then every function and
+    constant in source order through ONE union-find store, then the constant
+    cycles): if the model accepts a program whose items lie in the fragment
+    (`progPlain`: every declared type is a written type; `coreD`: written types
+    in signatures / annotations, bodies in `coreB`, initialisers in `coreE`) and the store it ends with has a solution in ground
+    types, then the declarative checker accepts the program. -/
+theorem infer_program_sound_partial (p : Prog) (hpl : progPlain p = true) (hc : p.decls.all coreD = true)
+    (u : Unit) (st : St) (h : checkProgM p = .ok u st) (hsol : ∃ σ : Val, GVal σ ∧ Sat σ st.store) :
+    checkProg p = .ok () :=
+  checkProgM_sound p (envPlain_of_progPlain p hpl) hc u st h hsol
+
+open RotoV.TcInfer in
+/-- **… hence every script of the fragment that the declarative rules reject is
+    rejected by the model** — or accepted only with a store that has no
+    solution (never observed: the driver checks `satB (solve s) s` for every
+    accepted program of every run). -/
+theorem rules_reject_model_rejects_partial (p : Prog) (hpl : progPlain p = true) (hc : p.decls.all coreD = true)
+    (hrej : accepts p = false) (u : Unit) (st : St) (h : checkProgM p = .ok u st) :
+    ¬ ∃ σ : Val, GVal σ ∧ Sat σ st.store := by
+  intro hsol
+  have := infer_program_sound_partial p hpl hc u st h hsol
+  unfold accepts at hrej
+  rw [this] at hrej
+  cases hrej
+
+open RotoV.TcInfer in
+/-- non-vacuity: the program `const C0: i64 = 5; fn f0(v0: i64) -> i64 { let v1 = 1; -(v0 + v1 + C0) }`
+    is in the fragment, the model accepts it and the proposed solution solves its store -/
+example :
+    let p : Prog := ⟨[.const 0 (.int .i64) (.intLit none),
+      .fn 0 [(0, .int .i64)] (.int .i64)
+        (.mk [.let_ 1 none (.intLit none)] (some (.neg (.bin .add (.bin .add (.var 0) (.var 1)) (.const 0)))))]⟩
+    progPlain p = true ∧ p.decls.all coreD = true ∧
+    (match checkProgM p with
+      | .ok _ st => satB (solve st.store) st.store && (solve st.store).all ground
+      | _ => false) = true ∧ accepts p = true := by decide +kernel
 
 open RotoV.TcInfer in
 /-- the same for ONE expression checked against an expected type, in any scope
